@@ -48,6 +48,7 @@ def run(ctx):
     return run_logical(
         ctx, LEVEL, models,
         extra_cases=many_chunks() + random_big(ctx, 6000 if thorough else 800),
+        stored_bytes_of=lambda c: c["ops"][0].get("dt") in ("arr3", "enumn", "opq4", "cmp"),
         nontrivial=lambda c: len(c["ops"][0].get("chunk") or []) > 0 or len(c["ops"][0]["dims"]) > 1 or c["ops"][0]["dims"][0] > 1,
         extra_cov={"unbounded_design_proof": {"tool": "apalache", "module": "spec/proofs/ChunkGeomLemmas.tla",
                                               "statement": "per dimension, for all extents d >= 1, chunk sizes c >= 1 and coordinates 0 <= x < d: the chunk x div c is a chunk "
@@ -56,7 +57,9 @@ def run(ctx):
         rule="cases = the complete configuration lattice enumerated by TLC (C01Model: element type x rank x extents x "
              "every chunk shape <= extent incl. non-divisors and contiguous x data class x superblock 0/2/3; chunk geometry laws "
              "checked on each) plus seeded random larger shapes (prime extents up to 97, rank <= 4, up to hundreds of chunks); "
-             "each is created, fully written, closed, reopened and every typed read compared with the written values; "
+             "each is created, fully written, closed, reopened and every typed read compared with the written values; for arrays, "
+             "enumerations, opaque and compound elements (no typed read in the library) the stored bytes are compared through the "
+             "independent decoder in a second pass; "
              "non-trivial = more than one element or chunked; distinct by hash of the case")
 
 
